@@ -8,7 +8,7 @@ use std::fmt::Write as _;
 
 use serde::{Deserialize, Serialize};
 
-#[derive(Clone, Debug, PartialEq, PartialOrd, Serialize, Deserialize)]
+#[derive(Clone, Debug, PartialEq, Serialize, Deserialize)]
 pub enum Val {
     Null,
     Bool(bool),
@@ -25,6 +25,13 @@ pub enum Val {
 }
 
 impl Eq for Val {}
+// (not derived: `sort()` compares with `lt`, and the derived one is not total when corrupted data
+// decodes to NaN)
+impl PartialOrd for Val {
+    fn partial_cmp(&self, o: &Self) -> Option<std::cmp::Ordering> {
+        Some(self.cmp(o))
+    }
+}
 impl Ord for Val {
     fn cmp(&self, o: &Self) -> std::cmp::Ordering {
         fn rank(v: &Val) -> u8 {
